@@ -5,7 +5,7 @@ from . import refsem
 def main(argv):
     refsem.run("C03", "c03", argv, [
         "the reference evaluator coq/Model/RefSem.v (static chains of frames) is the specification of lexical scoping; the scope stack / captured stacks / parent chain of /repo (environment.go:LexicalLookupSymbol, closing.go) are tied to it by the correspondence run on generated programs",
-        "the step budget of the harness (6000 VM instructions) and the fuel of the model (300) bound the programs compared",
+        "the step budget of the harness (4000 VM instructions) and the fuel of the model (300) bound the programs compared",
     ], {
         "tco-by-name": lambda r: r.get("defn_rebinds_and_calls_its_own_name") and not r.get("disagrees_also_without_self_tail_call", True),
     })
